@@ -37,7 +37,7 @@ MESH_NAMES = ["T1", "S4", "F5", "S5", "C5", "A6", "D6", "G4", "G7"]
 
 INV_MODEL_C03 = ["TypeOK", "InstanceWellFormed", "LapIsDivGrad", "WeightedDivSumsToZero", "BoundaryFluxIntegrates",
                  "WeightedLapSymmetric", "WeightedLapNegSemiDef", "KernelIsConstants", "GradExactOnLinear",
-                 "CovLapHermitian"]
+                 "CovLapHermitian", "PinnedRowsOnly"]
 INV_MODEL_C04 = ["TypeOK", "GaugeCovariant", "SupercurrentGaugeInvariant"]
 INV_TRACE_C03 = ["TrAssembledObeyIdentities", "TrLapIsDivGrad", "TrWeightedDivSumsToZero", "TrBoundaryFluxIntegrates", "TrWeightedLapSymmetric",
                  "TrWeightedLapNegSemiDef", "TrKernelIsConstants", "TrGradExactOnLinear", "TrCovLapHermitian"]
